@@ -50,7 +50,7 @@ def check(node: OpExpr, errors: list[Error], settings: Settings) -> None:
         ) if (
             lhs.fullname == rhs.fullname
             and lhs.fullname in {"builtins.isinstance", "builtins.issubclass"}
-            and len(lhs_args) == 2
+            and len(lhs_args) == len(rhs_args) == 2
             and is_equivalent(lhs_args[0], rhs_args[0])
         ):
             type_args = "y | z" if settings.get_python_version() >= (3, 10) else "(y, z)"
